@@ -53,6 +53,10 @@ Theorem C03_log_L_incr : forall x y : R, 0 < x -> x < y -> ln x < ln y.
 Proof. exact L_log_incr. Qed.
 Print Assumptions C03_log_L_incr.
 
+Theorem C03_log_growth : forall x y : R, 0 < x -> x <= y -> ln y - ln x = 1 * (ln y - ln x).
+Proof. exact L_log_growth. Qed.
+Print Assumptions C03_log_growth.
+
 Theorem C03_log_idx_mono : forall gamma o x y : R,
   1 < gamma -> 0 < x -> x <= y -> (idx_log gamma o x <= idx_log gamma o y)%Z.
 Proof. exact idx_log_mono. Qed.
@@ -90,6 +94,12 @@ Theorem C03_log_accuracy : forall gamma o v : R,
 Proof. exact accuracy_log. Qed.
 Print Assumptions C03_log_accuracy.
 
+Theorem C03_log_lower_value_incr : forall (gamma o a : R) (i j : Z),
+  1 < gamma -> -1 < a -> (i < j)%Z ->
+  lower_log gamma o i < lower_log gamma o j /\ value_log gamma o a i < value_log gamma o a j.
+Proof. intros gamma o a i j Hg Ha Hij; split; [apply lower_log_incr | apply value_log_incr]; assumption. Qed.
+Print Assumptions C03_log_lower_value_incr.
+
 Theorem C03_log_int32 : forall gamma o v : R,
   1 < gamma ->
   exp ((- 2 ^ 31 - o) / mult_log gamma + 1) <= v ->
@@ -113,6 +123,13 @@ Print Assumptions C03_lin_L_incr.
 Theorem C03_lin_growth : forall x y : R, 0 < x -> x <= y -> ln y - ln x <= L_lin y - L_lin x.
 Proof. exact L_lin_growth. Qed.
 Print Assumptions C03_lin_growth.
+
+(** within one binade, on pairs (the statement of the prototype) *)
+Theorem C03_lin_growth_binade : forall (e : Z) (s t : R),
+  0 <= s -> s <= t -> t <= 1 ->
+  ln (bval e t) - ln (bval e s) <= (IZR e + t) - (IZR e + s).
+Proof. exact llin_growth_binade. Qed.
+Print Assumptions C03_lin_growth_binade.
 
 Theorem C03_lin_idx_mono : forall gamma o : R, 1 < gamma -> forall x y : R,
   0 < x -> x <= y -> (idx_lin gamma o x <= idx_lin gamma o y)%Z.
@@ -158,6 +175,12 @@ Theorem C03_lin_accuracy : forall gamma o : R, 1 < gamma -> forall v : R,
 Proof. exact accuracy_lin. Qed.
 Print Assumptions C03_lin_accuracy.
 
+Theorem C03_lin_lower_value_incr : forall (gamma o a : R) (i j : Z),
+  1 < gamma -> -1 < a -> (i < j)%Z ->
+  lower_lin gamma o i < lower_lin gamma o j /\ value_lin gamma o a i < value_lin gamma o a j.
+Proof. intros gamma o a i j Hg Ha Hij; split; [apply lower_lin_incr | apply value_lin_incr]; assumption. Qed.
+Print Assumptions C03_lin_lower_value_incr.
+
 Theorem C03_lin_int32 : forall gamma o : R, 1 < gamma -> forall v : R,
   Rpower 2 ((- 2 ^ 31 - o) / mult_log2 gamma + 1) <= v ->
   v <= Rpower 2 ((2 ^ 31 - 1 - o) / mult_log2 gamma - 1) ->
@@ -186,6 +209,12 @@ Theorem C03_cub_growth : forall x y : R,
   0 < x -> x <= y -> 10 / 7 * (ln y - ln x) <= L_cub y - L_cub x.
 Proof. exact L_cub_growth. Qed.
 Print Assumptions C03_cub_growth.
+
+(** within one binade: g(s) = P s - (10/7) ln (1+s) is non-decreasing on [0, oo) *)
+Theorem C03_cub_growth_binade : forall s t : R,
+  0 <= s -> s <= t -> 10 / 7 * (ln (1 + t) - ln (1 + s)) <= Pcub t - Pcub s.
+Proof. exact Pcub_growth. Qed.
+Print Assumptions C03_cub_growth_binade.
 
 Theorem C03_cub_idx_mono : forall gamma o : R, 1 < gamma -> forall x y : R,
   0 < x -> x <= y -> (idx_cub gamma o x <= idx_cub gamma o y)%Z.
@@ -223,6 +252,12 @@ Theorem C03_cub_accuracy : forall gamma o : R, 1 < gamma -> forall v : R,
     <= alpha_of (gamma0_cub gamma) * v.
 Proof. exact accuracy_cub. Qed.
 Print Assumptions C03_cub_accuracy.
+
+Theorem C03_cub_lower_value_incr : forall (gamma o a : R) (i j : Z),
+  1 < gamma -> -1 < a -> (i < j)%Z ->
+  lower_cub gamma o i < lower_cub gamma o j /\ value_cub gamma o a i < value_cub gamma o a j.
+Proof. intros gamma o a i j Hg Ha Hij; split; [apply lower_cub_incr | apply value_cub_incr]; assumption. Qed.
+Print Assumptions C03_cub_lower_value_incr.
 
 Theorem C03_cub_int32 : forall gamma o : R, 1 < gamma -> forall v : R,
   Rpower 2 ((- 2 ^ 31 - o) / mult_log2 gamma + 1) <= v ->
